@@ -42,7 +42,7 @@ def c05(tier, seed):
 
 
 def c06(tier, seed):
-    return combine(fam_list(tier, ['order_q', 'order_split_q', 'two_q', 'two_fills_q', 'events_order_q', 'lines_q', 'lines4_q', 'lines_fills_q', 'lines_prepass_q', 'lines_files_q', 'lines_design_q'], ['order_t', 'two_t', 'lines_t', 'lines5_t', 'lines_files_t']) + [cli_family(tier), fx_family(tier)], ['variant_comparisons', 'partitions', 'fx_line_orders'],
+    return combine(fam_list(tier, ['order_q', 'order_split_q', 'two_q', 'two_fills_q', 'events_order_q', 'lines_q', 'lines4_q', 'lines_fills_q', 'lines_prepass_q', 'lines_prepass2_q', 'lines_files_q', 'lines_design_q'], ['order_t', 'two_t', 'lines_t', 'lines5_t', 'lines_files_t']) + [cli_family(tier), fx_family(tier)], ['variant_comparisons', 'partitions', 'fx_line_orders'],
                    'every cell ledger of the family rendered in canonical order and as reversed / sells-first / '
                    'actions-first / two seeded shuffles / adjacent and separated half fills / lower-case tickers; '
                    'non-trivial = implementation-vs-implementation comparisons of a variant with the canonical rendering',
@@ -237,7 +237,7 @@ def c20(tier, seed):
 
 
 def c11(tier, seed):
-    return combine(fam_list(tier, ['events_q', 'events_cheap_q', 'events_split_q', 'events_order_q', 'matcher_events_q', 'lines4_q', 'lines_prepass_q'], ['events_t', 'events_split_t', 'matcher_events_t', 'matcher_sim_t']) + [trace_family(tier, seed), fx_family(tier), long_family(tier, seed)], 'with_events',
+    return combine(fam_list(tier, ['events_q', 'events_cheap_q', 'events_split_q', 'events_order_q', 'matcher_events_q', 'lines4_q', 'lines_prepass_q', 'lines_prepass2_q'], ['events_t', 'events_split_t', 'matcher_events_t', 'matcher_sim_t']) + [trace_family(tier, seed), fx_family(tier), long_family(tier, seed)], 'with_events',
                    'cell ledgers with a capital return / accumulation cell at every position; TLC judges the observed '
                    'per-lot apportionment (never on later acquisitions, sums to the net amount, nothing negative); '
                    'conservation of the amount, s122 refusal of unabsorbable returns, dividend inertness; '
